@@ -370,6 +370,7 @@ func genPool(t *rapid.T, n int) []*Op {
 			g := sgen.New(t)
 			g.Probes, g.Loops, g.Slices, g.AddKey, g.Exit = true, true, true, true, true
 			g.Hostile = rapid.SampledFrom([]int{0, 30}).Draw(t, "hostile")
+			g.UniqueOrder = true // two executions are compared verbatim: no loop over a map of several keys
 			g.Calls = []func(*sgen.G, int) *gen.Node{func(g *sgen.G, d int) *gen.Node { return g.BuiltinCall(d) }}
 			prog := g.Program(rapid.IntRange(2, 6).Draw(t, "size"), 2)
 			tags, fields := point()
@@ -554,6 +555,22 @@ func TestManyDistinctArguments(t *testing.T) {
 				price = "n/a"
 			}
 			return run("xml(_, \"//order[price > 10]/id/text()\", out)\nxml(_, \"substring(//id, 3, 1)\", out2)\nprobe(\"x\", out, out2)", fmt.Sprintf("<r><order><price>%s</price><id>id%d</id></order></r>", price, i))
+		}},
+		{"datetime-neighbouring-instants", func(i int) *Op {
+			// instants of the same second and of the next one, one precision, one layout that shows the fraction
+			n1 := int64(1610960605001) + int64((i*7)%13) + 1000*int64(i%2)
+			return &Op{Kind: "run", Scripts: map[string]string{"main.p": "datetime(n1, \"ms\", \"RFC3339Nano\")\nprobe(\"d\", n1)"}, Root: "main.p", Tags: map[string]string{}, Fields: renderFields(map[string]any{"n1": n1}), Class: "ok"}
+		}},
+		{"datetime-around-the-epoch", func(i int) *Op {
+			n1 := int64(-1000) + 250*int64(i%9)
+			lay := []string{"RFC3339", "ANSIC", "2006-01-02 15:04:05"}[(i/9)%3]
+			return &Op{Kind: "run", Scripts: map[string]string{"main.p": fmt.Sprintf("datetime(n1, \"ms\", %q)\nprobe(\"d\", n1)", lay)}, Root: "main.p", Tags: map[string]string{}, Fields: renderFields(map[string]any{"n1": n1}), Class: "ok"}
+		}},
+		{"datetime-precisions", func(i int) *Op {
+			prec := []string{"s", "ms", "us", "ns"}[i%4]
+			n1 := []int64{1610960605, 1610960605001, 1610960605001002, 1610960605001002003}[i%4] + int64(i/4)
+			lay := []string{"RFC3339Nano", "StampMicro", "RFC1123"}[(i/4)%3]
+			return &Op{Kind: "run", Scripts: map[string]string{"main.p": fmt.Sprintf("datetime(n1, %q, %q)\nprobe(\"d\", n1)", prec, lay)}, Root: "main.p", Tags: map[string]string{}, Fields: renderFields(map[string]any{"n1": n1}), Class: "ok"}
 		}},
 		{"strfmt-format", func(i int) *Op {
 			return run(fmt.Sprintf("strfmt(out, \"%%d-f%d-%%s\", %d, \"s\")\nprobe(\"s\", out)", i, i), "m")
